@@ -3,15 +3,9 @@
 
 pub mod mul {
 use super::*;
-/// integer/src/mul/mod.rs :: add_signed_mul — "c += sign * a * b, returns carry".  ASSUMED (the strategy dispatch
-/// simple / Karatsuba / Toom-3 is outside the unbounded proofs: mul::simple is proved in unit int_mul_simple, the other
-/// strategies are bounded-checked against it).  `debug_assert!(c.len() == a.len() + b.len())` is the precondition.
-#[verifier::external_body]
-pub fn add_signed_mul<'a>(c: &mut [Word], sign: Sign, a: &'a [Word], b: &'a [Word], memory: &mut Memory) -> (ret: SignedWord)
-    requires old(c)@.len() == a@.len() + b@.len(),
-    ensures final(c)@.len() == old(c)@.len(),
-        val(final(c)@) + (ret as int) * pw(old(c)@.len() as int) == val(old(c)@) + sgn(sign) * (val(a@) * val(b@)),
-{ unimplemented!() }
+// integer/src/mul/mod.rs :: add_signed_mul -- PROVED in unit int_mul_dispatch (simple / Karatsuba / Toom-3 dispatch);
+// the contract comes from its annotated copy (one source of truth)
+//@@ SIG integer/mul_algos/add_signed_mul.rs
 }
 
 // (`bool.into()` for SignedWord: vstd's `Into::into` forwards to the `From<bool>` specification of lib/prelude.rs)
